@@ -60,6 +60,15 @@ int ideal_putc(substdio *s, unsigned char c)
   return 0;
 }
 
+/* out() - the emitter of the fixed report texts ("DSMTP cannot transfer messages with partial final lines...") - is cut: the
+ * text itself is not the subject here, and going through the ideal substdio_put would force that loop's bound up to the
+ * longest text for EVERY call site, including symbolic-length puts of the code under test (HARNESS-GUIDE, round 3) */
+void out(char *s)
+{
+  unsigned int i;
+  for (i = 0; i < 120; ++i) { if (!s[i]) break; if (replen < sizeof rep) rep[replen] = (unsigned char) s[i]; replen++; }
+}
+
 int ideal_flush(substdio *s)
 {
   if (s == &smtpto) flushed = outlen;
